@@ -5,10 +5,14 @@
 
 
 pub(crate) mod support;
+/// tables copied from the parser sources the freshly built parol generates (lib/coretables.py)
+#[path = "/verif/build/gen/core_tables.rs"]
+pub(crate) mod tables;
 mod c31_recovery;
 mod c08_eval;
 pub(crate) mod stream_model;
 mod ll_core;
+mod c14_buffer;
 
 // counterexample replay (written by the runner for `cargo kani playback`, removed afterwards)
 mod playback_gen;
